@@ -156,7 +156,7 @@ def mutate(r, s):
     if k < 0.50:      # a parameter gets a junk value
         slot = r.choice(list(SLOTS))
         path, params = SLOTS[slot]
-        if slot in ('cipher', 'kdf') and s.get('encryption', {}) is None:
+        if slot in ('cipher', 'kdf') and not isinstance(s.get('encryption', {}), dict):
             s['encryption'] = {'kdf': {'n': 4}}
         sec = section_of(s, path)
         p = r.choice([x for x in params if x != 'name'])
@@ -178,7 +178,7 @@ def mutate(r, s):
     if k < 0.68:      # any adapter name in any slot
         slot = r.choice(list(SLOTS))
         path, _ = SLOTS[slot]
-        if slot in ('cipher', 'kdf') and s.get('encryption', {}) is None:
+        if slot in ('cipher', 'kdf') and not isinstance(s.get('encryption', {}), dict):
             s['encryption'] = {'kdf': {'n': 4}}
         sec = section_of(s, path)
         nm = r.choice(ADAPTER_NAMES + ['md5', 'AES_GCM', 5, None, {}, True, 1.5])
@@ -196,7 +196,7 @@ def mutate(r, s):
     if k < 0.78:      # unknown parameter
         slot = r.choice(list(SLOTS))
         path, _ = SLOTS[slot]
-        if slot in ('cipher', 'kdf') and s.get('encryption', {}) is None:
+        if slot in ('cipher', 'kdf') and not isinstance(s.get('encryption', {}), dict):
             s['encryption'] = {'kdf': {'n': 4}}
         sec = section_of(s, path)
         sec[r.choice(['lenght', 'bits', 'length', 'size', 'key_bits', 'n', 'min_length', 'salt'])] = r.choice([1, 64, 256, 'x', None])
@@ -205,7 +205,7 @@ def mutate(r, s):
         if r.random() < 0.5:
             s[r.choice(['hash', 'compression', 'Hashing', 'kdf', 'cipher', ''])] = r.choice([{}, 1, None, 'x'])
             return s, 'key:top'
-        if s.get('encryption', {}) is None:
+        if not isinstance(s.get('encryption'), dict):
             s['encryption'] = {}
         s.setdefault('encryption', {})[r.choice(['mac', 'mac', 'shared_kdf', 'shared_kdf', 'hash', 'Cipher'])] = r.choice(
             [{}, {'name': 'blake2b'}, 1, {'name': 'blake2b', 'length': 100}, {'length': 0}, {'name': 'sha2'}, {'name': 'scrypt', 'n': 3}, {'length': 1.5}])
@@ -214,9 +214,9 @@ def mutate(r, s):
         which = r.choice(['hashing', 'chunking', 'encryption', 'cipher', 'kdf'])
         v = r.choice([None, 5, 'x', 1.5, True, {}])
         if which in ('cipher', 'kdf'):
-            if s.get('encryption', {}) is None:
+            if not isinstance(s.get('encryption'), dict):
                 s['encryption'] = {}
-            s.setdefault('encryption', {})[which] = v
+            s['encryption'][which] = v
         else:
             s[which] = v
         return s, f'shape:{which}:{type(v).__name__}'
@@ -521,7 +521,7 @@ def check_case(out, case, im, m):
     out.count('repo:' + enc_kind)
     # ---- direct oracle, part 1: rejected ⇒ backend untouched
     if not im['accepted'] and (im['mutations'] or im['objects']):
-        out.violation('settings:rejected-after-upload:' + str(im['error']),
+        out.violation('settings:rejected-after-upload',
                       f'init raised {im["error_repr"]} but the backend already holds {im["objects"]} (mutations {im["mutations"]})',
                       dict(replay, observed={'error': im['error_repr'], 'objects': im['objects']}, expected='no object at the backend after a rejected init'))
     # ---- direct oracle, part 2: accepted ⇒ fresh unlock + snapshot + restore works
